@@ -4,6 +4,8 @@ package ketoapi
 
 // C18: relationship encodings are faithful on their documented domains.
 
+import rts "github.com/ory/keto/proto/ory/keto/relation_tuples/v1alpha2"
+
 // verifC18Dom is the documented domain of the human-readable form: the fields
 // avoid the separator characters in the positions where they are significant.
 func verifC18NoByte(s string, c byte) bool {
@@ -137,5 +139,154 @@ func HarnessC18StringStable() {
 	if err2 != nil {
 		return
 	}
-	verifAssert(verifC18TupleEq(x, y), "C18 string: String(FromString(s)) re-parses to a different value")
+	// class of the decoded value: does its subject render with a parenthesis
+	// at either edge (which the next decode trims away)?
+	sub := ""
+	if x.SubjectID != nil {
+		sub = *x.SubjectID
+	} else {
+		sub = x.SubjectSet.String()
+	}
+	edge := false
+	if len(sub) > 0 {
+		f, l := sub[0], sub[len(sub)-1]
+		edge = verifOr(verifOr(f == '(', f == ')'), verifOr(l == '(', l == ')'))
+	}
+	eq := verifC18TupleEq(x, y)
+	verifAssert(verifOr(edge, eq), "C18 string: String(FromString(s)) re-parses to a different value")
+	verifTag("decoded-subject-has-parenthesis-at-an-edge")
+	verifAssert(verifOr(verifNot(edge), eq), "C18 string: String(FromString(s)) re-parses to a different value (decoded subject keeps a parenthesis at an edge)")
+	verifTag("")
+}
+
+// ---------------------------------------------------------------------------
+// proto and URL-query legs: opaque strings (any length, any content)
+
+func verifC18Tuple() *RelationTuple {
+	x := &RelationTuple{Namespace: verifOpaqueString(), Object: verifOpaqueString(), Relation: verifOpaqueString()}
+	if verifChoice(2) == 0 {
+		s := verifOpaqueString()
+		x.SubjectID = &s
+	} else {
+		x.SubjectSet = &SubjectSet{Namespace: verifOpaqueString(), Object: verifOpaqueString(), Relation: verifOpaqueString()}
+	}
+	return x
+}
+
+func verifC18Query() *RelationQuery {
+	q := &RelationQuery{}
+	if verifChoice(2) == 1 {
+		s := verifOpaqueString()
+		q.Namespace = &s
+	}
+	if verifChoice(2) == 1 {
+		s := verifOpaqueString()
+		q.Object = &s
+	}
+	if verifChoice(2) == 1 {
+		s := verifOpaqueString()
+		q.Relation = &s
+	}
+	switch verifChoice(3) {
+	case 1:
+		s := verifOpaqueString()
+		q.SubjectID = &s
+	case 2:
+		q.SubjectSet = &SubjectSet{Namespace: verifOpaqueString(), Object: verifOpaqueString(), Relation: verifOpaqueString()}
+	}
+	return q
+}
+
+func verifC18PtrEq(a, b *string) bool {
+	if (a == nil) != (b == nil) {
+		return false
+	}
+	if a == nil {
+		return true
+	}
+	return *a == *b
+}
+
+func verifC18SetEq(a, b *SubjectSet) bool {
+	if (a == nil) != (b == nil) {
+		return false
+	}
+	if a == nil {
+		return true
+	}
+	return verifAnd(a.Namespace == b.Namespace, verifAnd(a.Object == b.Object, a.Relation == b.Relation))
+}
+
+func verifC18QueryEq(a, b *RelationQuery) bool {
+	return verifAnd(verifAnd(verifC18PtrEq(a.Namespace, b.Namespace), verifC18PtrEq(a.Object, b.Object)),
+		verifAnd(verifC18PtrEq(a.Relation, b.Relation), verifAnd(verifC18PtrEq(a.SubjectID, b.SubjectID), verifC18SetEq(a.SubjectSet, b.SubjectSet))))
+}
+
+func verifC18TupleEqOpaque(a, b *RelationTuple) bool {
+	return verifAnd(verifAnd(a.Namespace == b.Namespace, a.Object == b.Object),
+		verifAnd(a.Relation == b.Relation, verifAnd(verifC18PtrEq(a.SubjectID, b.SubjectID), verifC18SetEq(a.SubjectSet, b.SubjectSet))))
+}
+
+// HarnessC18ProtoTuple: FromProto(ToProto(x)) == x and FromDataProvider(ToProto(x)) == x.
+func HarnessC18ProtoTuple() {
+	x := verifC18Tuple()
+	p := x.ToProto()
+	y := (&RelationTuple{}).FromProto(p)
+	verifReach("c18.proto.tuple")
+	verifAssert(verifC18TupleEqOpaque(x, y), "C18 proto: FromProto(ToProto(x)) != x")
+	z, err := (&RelationTuple{}).FromDataProvider(p)
+	verifAssert(err == nil, "C18 proto: FromDataProvider(ToProto(x)) fails")
+	if err == nil {
+		verifAssert(verifC18TupleEqOpaque(x, z), "C18 proto: FromDataProvider(ToProto(x)) != x")
+	}
+}
+
+// verifC18QueryAdapter exposes the optional fields of the proto query the way
+// the real wrapper in internal/relationtuple does (field accessors only).
+type verifC18QueryAdapter struct{ q *rts.RelationQuery }
+
+func (w verifC18QueryAdapter) GetSubject() *rts.Subject { return w.q.Subject }
+func (w verifC18QueryAdapter) GetObject() *string       { return w.q.Object }
+func (w verifC18QueryAdapter) GetNamespace() *string    { return w.q.Namespace }
+func (w verifC18QueryAdapter) GetRelation() *string     { return w.q.Relation }
+
+// HarnessC18ProtoQuery: FromDataProvider(ToProto(q)) == q for all 2^3 x 3 shapes.
+func HarnessC18ProtoQuery() {
+	q := verifC18Query()
+	p := q.ToProto()
+	r := (&RelationQuery{}).FromDataProvider(verifC18QueryAdapter{p})
+	verifReach("c18.proto.query")
+	verifAssert(verifC18QueryEq(q, r), "C18 proto: FromDataProvider(ToProto(q)) != q")
+}
+
+// HarnessC18URLTuple: FromURLQuery(ToURLQuery(x)) == x.
+func HarnessC18URLTuple() {
+	x := verifC18Tuple()
+	v := x.ToURLQuery()
+	y, err := (&RelationTuple{}).FromURLQuery(v)
+	verifReach("c18.url.tuple")
+	verifAssert(err == nil, "C18 url: FromURLQuery(ToURLQuery(x)) fails")
+	if err == nil {
+		verifAssert(verifC18TupleEqOpaque(x, y), "C18 url: FromURLQuery(ToURLQuery(x)) != x")
+	}
+}
+
+// HarnessC18URLQuery: FromURLQuery(ToURLQuery(q)) == q for all shapes.
+func HarnessC18URLQuery() {
+	q := verifC18Query()
+	v := q.ToURLQuery()
+	r, err := (&RelationQuery{}).FromURLQuery(v)
+	verifReach("c18.url.query")
+	verifAssert(err == nil, "C18 url: FromURLQuery(ToURLQuery(q)) fails")
+	if err == nil {
+		verifAssert(verifC18QueryEq(q, r), "C18 url: FromURLQuery(ToURLQuery(q)) != q")
+	}
+}
+
+// HarnessC18URLSubjectSet: SubjectSet URL round trip.
+func HarnessC18URLSubjectSet() {
+	s := &SubjectSet{Namespace: verifOpaqueString(), Object: verifOpaqueString(), Relation: verifOpaqueString()}
+	r := (&SubjectSet{}).FromURLQuery(s.ToURLQuery())
+	verifReach("c18.url.set")
+	verifAssert(verifC18SetEq(s, r), "C18 url: SubjectSet FromURLQuery(ToURLQuery(s)) != s")
 }
